@@ -5,3 +5,6 @@ import LettreVerif.Props.C02
 #print axioms LV.C02.headers_read_back
 #print axioms LV.C02.names_stay_unique
 #print axioms LV.C02.plain_value_unfolds_to_itself
+#print axioms LV.C02.tab_not_fold_point_witness
+#print axioms LV.C02.trailing_spaces_witness
+#print axioms LV.C02.space_run_witness
